@@ -8,6 +8,9 @@
    Not covered: the multi-byte set_pixel (body of `impl_bytes!`: the method name `$to_bytes_fn` is a macro parameter).
    Statements only (proofs: Proofs/SrcFbSetPixel.v, Proofs/SrcFbSetPixelBits.v). *)
 From EG Require Import Base.Prelude Base.Casts Model.Geometry Model.Rawdata Model.Framebuffer Gen.SrcGeometry Gen.SrcFbSetPixel Gen.SrcFbSetPixelBits Proofs.SrcFbSetPixel Proofs.SrcFbSetPixelBits.
+(* the generated definitions that cast to usize (`as usize`, `usize::try_from`) take the width of usize as Casts.UsizeW; the model
+   of this property works with 64-bit usize (exact integers in range): taken at that width *)
+#[local] Existing Instance Casts.usize64_w.
 
 (* in_fb W H p: p is inside the WIDTH x HEIGHT framebuffer.  The generated set_pixel is None (panic) exactly when p is inside and
    the index is outside the data array (never with the N that CHECK_N demands: the `_never_panics` theorems). *)
